@@ -331,6 +331,11 @@ package jet
 //@   props C07 C13 C10 C06 C12
 //@   requires RtOK(st) && node != nil && WF(node)
 //@   modifies @Interp
+//@   callsite (*Runtime).evalPrimaryExpressionGroup 0 requires [not-evaluates-its-operand] {C04} node == as(caller.node, "*NotExprNode").Expr
+//@   callsite isTrue 0 requires [not-tests-its-operand-for-truth] {C04} v == siteret("(*Runtime).evalPrimaryExpressionGroup", 0, 0)
+//@   callsite isTrue 1 requires [the-ternary-condition-is-tested-for-truth] {C04} v == siteret("(*Runtime).evalPrimaryExpressionGroup", 1, 0)
+//@   check [not-negates-the-truthiness-of-its-operand] {C04} NTF(node) == NodeNotExpr ==> RvKind(result) == 1 && RvBool(result) == !siteret("isTrue", 0, 0)
+//@   check [a-ternary-evaluates-to-the-branch-its-condition-selects] {C04} NTF(node) == NodeTernaryExpr ==> result == ite(siteret("isTrue", 1, 0), siteret("(*Runtime).evalPrimaryExpressionGroup", 2, 0), siteret("(*Runtime).evalPrimaryExpressionGroup", 3, 0))
 //@   callsite (*Runtime).evalPrimaryExpressionGroup 4 requires [an-index-expression-evaluates-its-base] {C06,C17} node == as(caller.node, "*IndexExprNode").Base
 //@   callsite (*Runtime).evalPrimaryExpressionGroup 5 requires [an-index-expression-evaluates-its-index] {C06,C17} node == as(caller.node, "*IndexExprNode").Index
 //@   callsite resolveIndex 0 requires [an-index-expression-looks-up-the-evaluated-index-in-the-evaluated-base] {C06,C17} v == siteret("(*Runtime).evalPrimaryExpressionGroup", 4, 0) && index == siteret("(*Runtime).evalPrimaryExpressionGroup", 5, 0) && indexAsStr == ""
@@ -366,6 +371,11 @@ package jet
 //@   callsite (*Runtime).evalPrimaryExpressionGroup 1 requires [right-operand-of-and-only-after-a-true-left] {C04} node == caller.node.Right && lastret("isTrue", 0)
 //@   callsite (*Runtime).evalPrimaryExpressionGroup 2 requires [right-operand-of-or-only-after-a-false-left] {C04} node == caller.node.Right && !lastret("isTrue", 0)
 //@   callsite (*Runtime).evalPrimaryExpressionGroup count 3
+//@   callsite isTrue 0 requires [the-left-operand-is-tested-for-truth] {C04} v == siteret("(*Runtime).evalPrimaryExpressionGroup", 0, 0)
+//@   callsite isTrue 1 requires [the-right-operand-of-and-is-tested-for-truth] {C04} v == siteret("(*Runtime).evalPrimaryExpressionGroup", 1, 0)
+//@   callsite isTrue 2 requires [the-right-operand-of-or-is-tested-for-truth] {C04} v == siteret("(*Runtime).evalPrimaryExpressionGroup", 2, 0)
+//@   check [and-is-true-iff-both-operands-are-truthy] {C04} node.binaryExprNode.Operator.typ == itemAnd ==> RvBool(result) == (siteret("isTrue", 0, 0) && siteret("isTrue", 1, 0))
+//@   check [or-is-true-iff-one-operand-is-truthy] {C04} node.binaryExprNode.Operator.typ != itemAnd ==> RvBool(result) == (siteret("isTrue", 0, 0) || siteret("isTrue", 2, 0))
 //@   ensures [balanced] SameS(st)
 //@   anypanic
 //@   exsures [runtime-valid-on-panic] RtX(st)
@@ -374,6 +384,10 @@ package jet
 //@   requires RtOK(st) && node != nil && WF(iface(node, "*ComparativeExprNode"))
 //@   modifies @Interp
 //@   ensures [equality-yields-a-bool] {C04} RvValid(result) && RvKind(result) == 1 && RvBool(result) == (lastret("checkEquality", 0) == (node.binaryExprNode.Operator.typ != itemNotEquals))
+//@   callsite (*Runtime).evalPrimaryExpressionGroup 0 requires [left-operand-first] {C04} node == caller.node.binaryExprNode.Left
+//@   callsite (*Runtime).evalPrimaryExpressionGroup 1 requires [right-operand-second] {C04} node == caller.node.binaryExprNode.Right
+//@   callsite checkEquality 0 requires [the-two-operand-values-are-compared] {C04} v1 == siteret("(*Runtime).evalPrimaryExpressionGroup", 0, 0) && v2 == siteret("(*Runtime).evalPrimaryExpressionGroup", 1, 0)
+//@   callsite checkEquality count 1 {C04}
 //@   ensures [balanced] SameS(st)
 //@   anypanic
 //@   exsures [runtime-valid-on-panic] RtX(st)
@@ -398,6 +412,7 @@ package jet
 //@   requires RtOK(st) && node != nil && WF(iface(node, "*AdditiveExprNode"))
 //@   modifies @Interp
 //@   check [a-float-operand-makes-the-operation-floating-point] {C04} KFloat(RvKind(lastret("(*Runtime).evalPrimaryExpressionGroup", 0))) ==> ncalls("toInt") == 0 && ncalls("toUint") == 0
+//@   check [plus-concatenates-when-the-left-operand-is-a-string] {C04} node.binaryExprNode.Left != nil && RvKind(siteret("(*Runtime).evalPrimaryExpressionGroup", 1, 0)) == 24 ==> node.binaryExprNode.Operator.typ == itemAdd && RvKind(result) == 24 && RvStr(result) == RvStr(siteret("(*Runtime).evalPrimaryExpressionGroup", 1, 0)) + lastret("fmt.Sprint", 0)
 //@   check [integer-plus-float-is-a-float-sum] {C04} node.binaryExprNode.Left != nil && KInt(RvKind(siteret("(*Runtime).evalPrimaryExpressionGroup", 1, 0))) && KFloat(RvKind(siteret("(*Runtime).evalPrimaryExpressionGroup", 2, 0))) ==> RvKind(result) == 14 && RvFloat(result) == ite(node.binaryExprNode.Operator.typ == itemAdd, float64(RvInt(siteret("(*Runtime).evalPrimaryExpressionGroup", 1, 0))) + RvFloat(siteret("(*Runtime).evalPrimaryExpressionGroup", 2, 0)), float64(RvInt(siteret("(*Runtime).evalPrimaryExpressionGroup", 1, 0))) - RvFloat(siteret("(*Runtime).evalPrimaryExpressionGroup", 2, 0)))
 //@   check [float-plus-number-is-a-float-sum] {C04} node.binaryExprNode.Left != nil && KFloat(RvKind(siteret("(*Runtime).evalPrimaryExpressionGroup", 1, 0))) && (KInt(RvKind(siteret("(*Runtime).evalPrimaryExpressionGroup", 2, 0))) || KFloat(RvKind(siteret("(*Runtime).evalPrimaryExpressionGroup", 2, 0)))) ==> RvKind(result) == 14 && RvFloat(result) == ite(node.binaryExprNode.Operator.typ == itemAdd, RvFloat(siteret("(*Runtime).evalPrimaryExpressionGroup", 1, 0)) + ite(KInt(RvKind(siteret("(*Runtime).evalPrimaryExpressionGroup", 2, 0))), float64(RvInt(siteret("(*Runtime).evalPrimaryExpressionGroup", 2, 0))), RvFloat(siteret("(*Runtime).evalPrimaryExpressionGroup", 2, 0))), RvFloat(siteret("(*Runtime).evalPrimaryExpressionGroup", 1, 0)) - ite(KInt(RvKind(siteret("(*Runtime).evalPrimaryExpressionGroup", 2, 0))), float64(RvInt(siteret("(*Runtime).evalPrimaryExpressionGroup", 2, 0))), RvFloat(siteret("(*Runtime).evalPrimaryExpressionGroup", 2, 0))))
 //@   check [two-go-integers-add-and-subtract-integrally] {C04} node.binaryExprNode.Left != nil && KInt(RvKind(siteret("(*Runtime).evalPrimaryExpressionGroup", 1, 0))) && KInt(RvKind(siteret("(*Runtime).evalPrimaryExpressionGroup", 2, 0))) ==> RvKind(result) == 6 && RvInt(result) == ite(node.binaryExprNode.Operator.typ == itemAdd, RvInt(siteret("(*Runtime).evalPrimaryExpressionGroup", 1, 0)) + RvInt(siteret("(*Runtime).evalPrimaryExpressionGroup", 2, 0)), RvInt(siteret("(*Runtime).evalPrimaryExpressionGroup", 1, 0)) - RvInt(siteret("(*Runtime).evalPrimaryExpressionGroup", 2, 0)))
@@ -891,6 +906,7 @@ package jet
 //@ axiom forallT(v, "reflect.Value", forallT(t, "reflect.Type", RvTypeOf(RvConv(v, t)) == t && TAssign(t, t)))
 //@ axiom forallT(i, "interface{}", istype(i, "int64") ==> RvValid(RvOf(i)) && RvKind(RvOf(i)) == 6 && RvInt(RvOf(i)) == as(i, "int64"))
 //@ axiom forallT(i, "interface{}", istype(i, "int") ==> RvValid(RvOf(i)) && RvKind(RvOf(i)) == 2 && RvInt(RvOf(i)) == as(i, "int"))
+//@ axiom forallT(i, "interface{}", istype(i, "string") ==> RvValid(RvOf(i)) && RvKind(RvOf(i)) == 24 && RvStr(RvOf(i)) == as(i, "string"))
 //@ axiom forallT(i, "interface{}", istype(i, "float64") ==> RvValid(RvOf(i)) && RvKind(RvOf(i)) == 14 && RvFloat(RvOf(i)) == as(i, "float64"))
 //@ axiom forallT(i, "interface{}", istype(i, "bool") ==> RvValid(RvOf(i)) && RvKind(RvOf(i)) == 1 && RvBool(RvOf(i)) == as(i, "bool"))
 //@ immutable {C14,C12} global stringType
